@@ -61,8 +61,10 @@ def siteCovered (s : Site) : Bool :=
 /-- the sites that are not accounted for (counterexample finder for `set_sites_covered`) -/
 def uncovered : List Site := sites.filter (fun s => !siteCovered s)
 
-/-- allow-list entries matched by more sites than they allow (a second unsorted loop over the same expression) -/
-def overused : List Allowed := allowList.filter (fun a => (sites.filter a.matches).length > a.count)
+/-- allow-list entries matched by more order-sensitive sites than they allow (a second unsorted loop over the same
+    expression in the same function) -/
+def overused : List Allowed :=
+  allowList.filter (fun a => (sites.filter fun s => a.matches s && !(s.sorted || s.insensitive)).length > a.count)
 
 /-- every set-iteration site is sorted, structurally order-insensitive, or explicitly allowed (once) -/
 theorem set_sites_covered : (∀ s ∈ sites, siteCovered s = true) ∧ overused = [] := by
